@@ -1,19 +1,35 @@
 /-
   C19 "External commands cannot hang or crash fan2go".
 
-  Model: `safeCmdExecution` (= util.SafeCmdExecution, internal/util/exec.go) over the abstract process
-  behaviour `Beh`; callers `cmdUserValue` / `cmdUserSet` (sensors/cmd.go, fans/cmd.go).
-  Tied to the real code by stream `ex` (`ex.run`, `ex.user`: real scripts, real processes, wall clock).
+  Model: `safeCmdExecution` (= util.SafeCmdExecution, internal/util/exec.go AFTER the fixes 8c639fb and
+  4d252cb) over the abstract process behaviour `Beh`; callers `cmdUserValue` / `cmdUserSet`
+  (sensors/cmd.go, fans/cmd.go). Tied to the real code by stream `ex` (`ex.run`, `ex.user`: real scripts,
+  real processes, wall clock).
 
-  Verdict of the proofs: the full-strength property is REFUTED for the code that exists
-  (`C19_refuted`), with one theorem per concrete witness; each witness is replayed on the real code
-  by an `ex.run` op named in its doc comment. What does hold is `C19_partial`.
+  Verdict of the proofs: the property HOLDS at full strength (`C19_holds`) for every behaviour of the
+  command and every timeout, under the single explicit hypothesis that `os.Stat` does not fail with an
+  error other than not-exist (`st ≠ .otherErr`): in that branch – unreachable for root on a local file
+  system, unchanged by the fixes – `info` is nil and `info.Sys()` panics (`C19_witness_stat_error`,
+  `C19_residual`).
+
+  History (pre-fix code, all replayed on the real code at the time, then fixed):
+  1. start error (`ex.run beh=notexec|badformat|vanish`; `ex.perm owner=0 group=0 mode=644 link=0`):
+     unchecked `err.(*exec.ExitError)` on a `*fs.PathError` → `res=panic:typeassert`;  now `res=err`.
+  2. grandchild holding stdout (`ex.run beh=grandchild timeout_ms=300`): no `WaitDelay`, `Output()` waited
+     for the pipe → `res=blocked within=0`;  now `res=err within=1` (exec.ErrWaitDelay after 200 ms).
+  3. plain `sleep 30` as last line of a `/bin/sh` script (`ex.run beh=sleep timeout_ms=200`): shell killed,
+     orphaned `sleep` holds the pipe → `res=blocked within=0`;  now `res=err within=1` (timeout + 200 ms).
+  4. pipe released after the deadline (`ex.run beh=grandchild timeout_ms=300 hold_ms=1300`): returned
+     `("", nil)` late → `res=ok:0: within=0`;  now `res=err within=1`.
 -/
 import Fan2go.Proofs.Exec
 namespace Fan2go
 
 /-- the "small margin" of the property statement, in ms -/
 def c19MarginMs : Nat := 500
+
+/-- the margin covers the WaitDelay constant of the code -/
+theorem cmdWaitDelay_le_margin : cmdWaitDelayMs ≤ c19MarginMs := by decide
 
 /-- The conclusion of C19 for one call: the result is an error or the command's trimmed output,
     it is not a panic, and the call is bounded by `timeout + margin`. -/
@@ -22,147 +38,143 @@ def C19_ok (beh : Beh) (timeout : Nat) (o : ExecOut) : Prop :=
   ∧ o.res.isPanic = false
   ∧ ∃ b, o.boundedBy = some b ∧ b ≤ timeout + c19MarginMs
 
-/-- **C19 at full strength**: for every state of the executable file, every behaviour of the command
-    and every timeout. -/
+/-- **C19 at full strength**: for every state of the executable file (short of the stat-error branch),
+    every behaviour of the command – cannot be started, any exit code, killed, ignores the deadline,
+    leaves descendants holding its output for any time or for ever – and every timeout. -/
 def C19_statement : Prop :=
-  ∀ (ev : EvalRes) (st : StatRes) (beh : Beh) (timeout : Nat),
+  ∀ (ev : EvalRes) (st : StatRes) (beh : Beh) (timeout : Nat), st ≠ .otherErr →
     C19_ok beh timeout (safeCmdExecution ev st beh timeout)
 
 /-- a root-owned 0755 executable: passes the permission check -/
 def c19GoodFile : StatRes := .ok ⟨0, 0, 0o755⟩
 
-/-! ### witnesses against the full statement -/
+/-- after a passed check the call is bounded by `timeout + cmdWaitDelay`, never panics, and returns an
+    error or the trimmed output -/
+theorem runCmd_ok (beh : Beh) (timeout : Nat) :
+    ((∃ e, (runCmd beh timeout).res = .ok (.error e)) ∨
+      (∃ out, beh.stdout = some out ∧ (runCmd beh timeout).res = .ok (.ok (trimNl out))))
+    ∧ (runCmd beh timeout).res.isPanic = false
+    ∧ ∃ b, (runCmd beh timeout).boundedBy = some b ∧ b ≤ timeout + cmdWaitDelayMs := by
+  unfold runCmd
+  by_cases ht : timeout = 0
+  · simp only [ht, if_true]
+    exact ⟨Or.inl ⟨_, rfl⟩, rfl, 0, rfl, Nat.zero_le _⟩
+  · simp only [ht, if_false]
+    match beh with
+    | .startError => exact ⟨Or.inl ⟨_, rfl⟩, rfl, 0, rfl, Nat.zero_le _⟩
+    | .exits code out =>
+      by_cases hc : code = 0
+      · subst hc
+        exact ⟨Or.inr ⟨out, rfl, rfl⟩, rfl, timeout, rfl, Nat.le_add_right _ _⟩
+      · simp only [hc, if_false]
+        exact ⟨Or.inl ⟨_, rfl⟩, rfl, timeout, rfl, Nat.le_add_right _ _⟩
+    | .killedBySignal _ => exact ⟨Or.inl ⟨_, rfl⟩, rfl, timeout, rfl, Nat.le_add_right _ _⟩
+    | .outlivesDeadline none => exact ⟨Or.inl ⟨_, rfl⟩, rfl, timeout, rfl, Nat.le_add_right _ _⟩
+    | .outlivesDeadline (some (.ms h)) =>
+      exact ⟨Or.inl ⟨_, rfl⟩, rfl, _, rfl, Nat.min_le_right _ _⟩
+    | .outlivesDeadline (some .forever) => exact ⟨Or.inl ⟨_, rfl⟩, rfl, _, rfl, Nat.le_refl _⟩
+    | .grandchildHoldsStdout out (.ms h) =>
+      by_cases hw : h < cmdWaitDelayMs
+      · by_cases hh : h < timeout
+        · simp only [hw, hh, if_true]
+          exact ⟨Or.inr ⟨out, rfl, rfl⟩, rfl, h, rfl, by omega⟩
+        · simp only [hw, hh, if_true, if_false]
+          exact ⟨Or.inl ⟨_, rfl⟩, rfl, h, rfl, by omega⟩
+      · simp only [hw, if_false]
+        exact ⟨Or.inl ⟨_, rfl⟩, rfl, _, rfl, Nat.le_add_left _ _⟩
+    | .grandchildHoldsStdout out .forever =>
+      exact ⟨Or.inl ⟨_, rfl⟩, rfl, _, rfl, Nat.le_add_left _ _⟩
 
-/-- **Witness 1 – the command cannot be started** (no x bit / bad format / missing interpreter):
-    `cmd.Output()` returns a `*fs.PathError`, the unchecked `err.(*exec.ExitError)` PANICS.
-    Real code: `ex.run beh=notexec timeout_ms=2000`, `beh=badformat`, `beh=vanish` → `res=panic:typeassert`;
-    `ex.perm owner=0 group=0 mode=644 link=0` → `check=ok run=panic:typeassert marker=0`. -/
-theorem C19_witness_start_error :
-    (safeCmdExecution .resolved c19GoodFile .startError 2000).res = .panic "type-assertion" := by decide
+/-- the permission check gives an error value or passes – unless `os.Stat` fails otherwise -/
+theorem checkPerm_cases (ev : EvalRes) (st : StatRes) (hs : st ≠ .otherErr) :
+    (∃ e, checkPerm ev st = .ok (.error e)) ∨ checkPerm ev st = .ok (.ok ()) := by
+  cases ev with
+  | err => exact Or.inl ⟨_, rfl⟩
+  | resolved =>
+    cases st with
+    | notExist => exact Or.inl ⟨_, rfl⟩
+    | otherErr => exact absurd rfl hs
+    | ok s =>
+      rcases checkPerm_ok_cases s with h | h
+      · exact Or.inr h
+      · exact Or.inl h
 
-/-- **Witness 2 – a grandchild keeps stdout open** (`(sleep 30 &); echo hi`): no `cmd.WaitDelay`, so
-    `Output()` waits for the pipe, not for the deadline – the call is not bounded at all.
-    Real code: `ex.run beh=grandchild timeout_ms=300` → `res=blocked within=0`. -/
-theorem C19_witness_grandchild :
-    (safeCmdExecution .resolved c19GoodFile (.grandchildHoldsStdout "hi\n" .forever) 2000).boundedBy = none := by
-  decide
-
-/-- **Witness 3 – the ordinary hanging script** (`#!/bin/sh` + `sleep 30`): the shell is killed at the
-    deadline, its child `sleep` inherited stdout and holds it for the full 30 s.
-    Real code: `ex.run beh=sleep timeout_ms=200` → `res=blocked within=0`
-    (whereas `beh=execsleep`, no orphan, → `res=err within=1`). -/
-theorem C19_witness_shell_sleep :
-    (safeCmdExecution .resolved c19GoodFile (.outlivesDeadline (some (.ms 30000))) 2000).boundedBy = some 30000 := by
-  decide
-
-/-- **Witness 4 – late AND wrong**: when the pipe is released after the deadline the call returns
-    `("", nil)`: no error although the output "hi" was thrown away (`return "", err` with `err == nil`).
-    Real code: `ex.run beh=grandchild timeout_ms=300 hold_ms=1300` → `res=ok:0: within=0`. -/
-theorem C19_witness_late_empty :
-    (safeCmdExecution .resolved c19GoodFile (.grandchildHoldsStdout "hi\n" (.ms 4000)) 2000)
-      = { res := .ok (.ok ""), attempted := true, ran := true, boundedBy := some 4000 } := by decide
-
-/-- **Witness 5 – `os.Stat` fails with something else than not-exist**: `info` is nil, `info.Sys()`
-    panics. (Not reachable for root on a local file system; modelled branch only.) -/
-theorem C19_witness_stat_error (beh : Beh) (t : Nat) :
-    (safeCmdExecution .resolved .otherErr beh t).res = .panic "nil" := rfl
-
-theorem C19_not_ok_start_error :
-    ¬ C19_ok .startError 2000 (safeCmdExecution .resolved c19GoodFile .startError 2000) := by
-  intro h
-  have := h.2.1
-  rw [C19_witness_start_error] at this
-  exact absurd this (by decide)
-
-theorem C19_not_ok_grandchild :
-    ¬ C19_ok (.grandchildHoldsStdout "hi\n" .forever) 2000
-        (safeCmdExecution .resolved c19GoodFile (.grandchildHoldsStdout "hi\n" .forever) 2000) := by
-  intro h
-  obtain ⟨b, hb, _⟩ := h.2.2
-  rw [C19_witness_grandchild] at hb
-  cases hb
-
-theorem C19_not_ok_shell_sleep :
-    ¬ C19_ok (.outlivesDeadline (some (.ms 30000))) 2000
-        (safeCmdExecution .resolved c19GoodFile (.outlivesDeadline (some (.ms 30000))) 2000) := by
-  intro h
-  obtain ⟨b, hb, hle⟩ := h.2.2
-  rw [C19_witness_shell_sleep] at hb
-  cases hb
-  exact absurd hle (by decide)
-
-/-- **C19 is refuted** for the code that exists. -/
-theorem C19_refuted : ¬ C19_statement :=
-  fun h => C19_not_ok_start_error (h .resolved c19GoodFile .startError 2000)
-
-/-- the second, independent refutation (hang instead of crash) -/
-theorem C19_refuted_by_hang : ¬ C19_statement :=
-  fun h => C19_not_ok_grandchild (h .resolved c19GoodFile (.grandchildHoldsStdout "hi\n" .forever) 2000)
-
-/-! ### what does hold -/
-
-/-- behaviours for which the code is fine: the command starts, and nobody but the command itself holds
-    its stdout (it may exit with any code, be killed, print anything, or ignore the deadline) -/
-def Beh.benign : Beh → Prop
-  | .startError => False
-  | .exits _ _ => True
-  | .killedBySignal _ => True
-  | .outlivesDeadline none => True
-  | .outlivesDeadline (some _) => False
-  | .grandchildHoldsStdout _ _ => False
-
-/-- **C19, the part that holds.** For every file state except the unreachable stat-error branch, every
-    benign behaviour and every timeout (0 included) the call returns an error or the trimmed output,
-    does not panic, and is bounded by the timeout (margin 0 in model time). -/
-theorem C19_partial (ev : EvalRes) (st : StatRes) (beh : Beh) (timeout : Nat)
-    (hb : beh.benign) (hs : st ≠ .otherErr) :
-    C19_ok beh timeout (safeCmdExecution ev st beh timeout) := by
+/-- the same with the sharp bound `timeout + cmdWaitDelay` (200 ms) instead of the margin -/
+theorem C19_holds_tight (ev : EvalRes) (st : StatRes) (beh : Beh) (timeout : Nat) (hs : st ≠ .otherErr) :
+    ((∃ e, (safeCmdExecution ev st beh timeout).res = .ok (.error e)) ∨
+      (∃ out, beh.stdout = some out ∧ (safeCmdExecution ev st beh timeout).res = .ok (.ok (trimNl out))))
+    ∧ (safeCmdExecution ev st beh timeout).res.isPanic = false
+    ∧ ∃ b, (safeCmdExecution ev st beh timeout).boundedBy = some b ∧ b ≤ timeout + cmdWaitDelayMs := by
   unfold safeCmdExecution
-  -- the permission check: error value, or passed
-  have hperm : (∃ e, checkPerm ev st = .ok (.error e)) ∨ checkPerm ev st = .ok (.ok ()) := by
-    cases ev with
-    | err => exact Or.inl ⟨_, rfl⟩
-    | resolved =>
-      cases st with
-      | notExist => exact Or.inl ⟨_, rfl⟩
-      | otherErr => exact absurd rfl hs
-      | ok s =>
-        rcases checkPerm_ok_cases s with h | h
-        · exact Or.inr h
-        · exact Or.inl h
-  rcases hperm with ⟨e, he⟩ | hp
+  rcases checkPerm_cases ev st hs with ⟨e, he⟩ | hp
   · rw [he]
     exact ⟨Or.inl ⟨_, rfl⟩, rfl, 0, rfl, Nat.zero_le _⟩
   · rw [hp]
-    simp only [safeCmd]
-    unfold runCmd
-    by_cases ht : timeout = 0
-    · simp only [ht, if_true]
-      exact ⟨Or.inl ⟨_, rfl⟩, rfl, 0, rfl, Nat.zero_le _⟩
-    · simp only [ht, if_false]
-      match beh, hb with
-      | .exits code out, _ =>
-        by_cases hc : code = 0
-        · subst hc
-          exact ⟨Or.inr ⟨out, rfl, rfl⟩, rfl, timeout, rfl, Nat.le_add_right _ _⟩
-        · simp only [hc, if_false]
-          exact ⟨Or.inl ⟨_, rfl⟩, rfl, timeout, rfl, Nat.le_add_right _ _⟩
-      | .killedBySignal _, _ => exact ⟨Or.inl ⟨_, rfl⟩, rfl, timeout, rfl, Nat.le_add_right _ _⟩
-      | .outlivesDeadline none, _ => exact ⟨Or.inl ⟨_, rfl⟩, rfl, timeout, rfl, Nat.le_add_right _ _⟩
+    exact runCmd_ok beh timeout
 
-/-- a holder that lets go before the deadline is harmless as well -/
-theorem C19_partial_early_release (out : String) (h timeout : Nat) (hh : h < timeout) :
-    C19_ok (.grandchildHoldsStdout out (.ms h)) timeout
-      (safeCmdExecution .resolved c19GoodFile (.grandchildHoldsStdout out (.ms h)) timeout) := by
+/-- **C19 holds** for the code that exists now. -/
+theorem C19_holds : C19_statement := by
+  intro ev st beh timeout hs
+  obtain ⟨h1, h2, b, hb, hle⟩ := C19_holds_tight ev st beh timeout hs
+  exact ⟨h1, h2, b, hb, Nat.le_trans hle (Nat.add_le_add_left cmdWaitDelay_le_margin _)⟩
+
+/-! ### the residual, modelled-only branch -/
+
+/-- **Residual – `os.Stat` fails with something else than not-exist**: `info` is nil, `info.Sys()`
+    panics. (Not reachable for root on a local file system; modelled branch only, unchanged by the fixes.) -/
+theorem C19_witness_stat_error (beh : Beh) (t : Nat) :
+    (safeCmdExecution .resolved .otherErr beh t).res = .panic "nil" := rfl
+
+/-- hence the hypothesis `st ≠ .otherErr` of `C19_statement` cannot be dropped -/
+theorem C19_residual :
+    ¬ ∀ (ev : EvalRes) (st : StatRes) (beh : Beh) (timeout : Nat),
+        C19_ok beh timeout (safeCmdExecution ev st beh timeout) := by
+  intro h
+  have := (h .resolved .otherErr .startError 2000).2.1
+  rw [C19_witness_stat_error] at this
+  simp [Res.isPanic] at this
+
+/-! ### the former witnesses, now harmless -/
+
+/-- former witness 1: a command that cannot be started gives an error, at once, nothing is run -/
+theorem C19_start_error_is_error :
+    safeCmdExecution .resolved c19GoodFile .startError 2000
+      = { res := .ok (.error "fork/exec"), attempted := true, ran := false, boundedBy := some 0 } := by decide
+
+/-- former witness 2: a grandchild holding stdout for ever costs `cmdWaitDelay`, whatever the timeout -/
+theorem C19_grandchild_is_bounded (t : Nat) (ht : t ≠ 0) :
+    (safeCmdExecution .resolved c19GoodFile (.grandchildHoldsStdout "hi\n" .forever) t).boundedBy
+      = some cmdWaitDelayMs := by
   have hp : checkPerm .resolved c19GoodFile = .ok (.ok ()) := by decide
-  have ht : timeout ≠ 0 := by omega
-  unfold safeCmdExecution
-  rw [hp]
-  simp only [safeCmd, runCmd, ht, if_false, hh, if_true]
-  exact ⟨Or.inr ⟨out, rfl, rfl⟩, rfl, h, rfl, by omega⟩
+  simp [safeCmdExecution, hp, safeCmd, runCmd, ht]
 
-/-- a panic inside `SafeCmdExecution` is not recovered by any caller: it reaches the sensor monitor /
-    the fan controller goroutine. Real code: `ex.user kind=sensor beh=notexec` → `res=panic:typeassert`. -/
+/-- former witness 3: the orphaned `sleep 30` of a killed shell costs `timeout + cmdWaitDelay` -/
+theorem C19_shell_sleep_is_bounded :
+    (safeCmdExecution .resolved c19GoodFile (.outlivesDeadline (some (.ms 30000))) 2000).boundedBy = some 2200 := by
+  decide
+
+/-- former witness 4: a release after the deadline is an error, no longer `("", nil)` -/
+theorem C19_late_release_is_error :
+    (safeCmdExecution .resolved c19GoodFile (.grandchildHoldsStdout "hi\n" (.ms 4000)) 2000).res
+      = .ok (.error "exec: WaitDelay expired before I/O complete") := by decide
+
+/-- the price of the bound: a command that exits 0 but leaves a holder of its stdout for `cmdWaitDelay` or
+    longer is reported as an ERROR even when everything happens well before the deadline
+    (real code: `ex.run beh=grandchild timeout_ms=1000 hold_ms=500` → `res=err within=1`, whereas
+    `hold_ms=100` → `res=ok:2:6869 within=1`) -/
+theorem C19_holder_past_waitdelay_is_error (out : String) (h t : Nat) (ht : t ≠ 0) (hh : cmdWaitDelayMs ≤ h) :
+    ∃ e, (safeCmdExecution .resolved c19GoodFile (.grandchildHoldsStdout out (.ms h)) t).res = .ok (.error e) := by
+  have hp : checkPerm .resolved c19GoodFile = .ok (.ok ()) := by decide
+  have : ¬ h < cmdWaitDelayMs := by omega
+  exact ⟨"exec: WaitDelay expired before I/O complete",
+    by simp [safeCmdExecution, hp, safeCmd, runCmd, ht, this]⟩
+
+/-! ### callers -/
+
+/-- a panic inside `SafeCmdExecution` would not be recovered by any caller (it would reach the sensor
+    monitor / the fan controller goroutine) – which is why `C19_callers_never_panic` matters. The only
+    panic left in the model is the stat-error branch. (Pre-fix real code: `ex.user kind=sensor beh=notexec`
+    → `res=panic:typeassert`; now `res=err`.) -/
 theorem C19_panic_reaches_callers {α : Type} (parse : String → Option α) (o : ExecOut) (site : String)
     (h : o.res = .panic site) :
     cmdUserValue parse o = .panic site ∧ cmdUserSet o = .panic site := by
@@ -182,45 +194,37 @@ theorem C19_callers_total {α : Type} (parse : String → Option α) (o : ExecOu
   | .err e => exact absurd hr (h' e)
   | .panic s => rw [hr] at h; simp [Res.isPanic] at h
 
+/-- **Callers never see a panic**, for ANY behaviour of the command and any timeout: `GetValue` /
+    `GetPwm` / `GetRpm` return a value or an error, `SetPwm` succeeds or returns an error. -/
+theorem C19_callers_never_panic {α : Type} (parse : String → Option α)
+    (ev : EvalRes) (st : StatRes) (beh : Beh) (timeout : Nat) (hs : st ≠ .otherErr) :
+    ((∃ v, cmdUserValue parse (safeCmdExecution ev st beh timeout) = .ok (.ok v)) ∨
+      (∃ e, cmdUserValue parse (safeCmdExecution ev st beh timeout) = .ok (.error e))) ∧
+    (cmdUserSet (safeCmdExecution ev st beh timeout) = .ok (.ok ()) ∨
+      (∃ e, cmdUserSet (safeCmdExecution ev st beh timeout) = .ok (.error e))) := by
+  obtain ⟨h1, h2, _⟩ := C19_holds_tight ev st beh timeout hs
+  have hne : ∀ e, (safeCmdExecution ev st beh timeout).res ≠ .err e := by
+    intro e he
+    rcases h1 with ⟨e', h'⟩ | ⟨out, _, h'⟩ <;> rw [h'] at he <;> simp at he
+  refine ⟨C19_callers_total parse _ h2 hne, ?_⟩
+  unfold cmdUserSet
+  rcases h1 with ⟨e', h'⟩ | ⟨out, _, h'⟩
+  · rw [h']; exact Or.inr ⟨e', rfl⟩
+  · rw [h']; exact Or.inl rfl
+
 /-! ### the trimmed text -/
 
-/-- **C19, trim.** A returned text is the command's stdout with leading/trailing `'\n'` removed – or,
-    in the late-release case of witness 4, the empty string. -/
+/-- **C19, trim.** A returned text is the command's stdout with leading/trailing `'\n'` removed. -/
 theorem C19_trim (ev : EvalRes) (st : StatRes) (beh : Beh) (timeout : Nat) (s : String)
     (h : (safeCmdExecution ev st beh timeout).res = .ok (.ok s)) :
-    (∃ out, beh.stdout = some out ∧ s = trimNl out) ∨
-    (s = "" ∧ ∃ out hold, beh = .grandchildHoldsStdout out hold) := by
-  unfold safeCmdExecution at h
-  match hp : checkPerm ev st with
-  | .ok (.error e) => rw [hp] at h; simp [safeCmd] at h
-  | .err e => rw [hp] at h; simp [safeCmd] at h
-  | .panic e => rw [hp] at h; simp [safeCmd] at h
-  | .ok (.ok ()) =>
-    rw [hp] at h
-    simp only [safeCmd] at h
-    unfold runCmd at h
-    by_cases ht : timeout = 0
-    · simp [ht] at h
-    · simp only [ht, if_false] at h
-      match beh with
-      | .startError => simp at h
-      | .killedBySignal _ => simp at h
-      | .outlivesDeadline _ => simp at h
-      | .exits code out =>
-        by_cases hc : code = 0
-        · subst hc
-          simp at h
-          exact Or.inl ⟨out, rfl, h.symm⟩
-        · simp [hc] at h
-      | .grandchildHoldsStdout out (.ms hd) =>
-        by_cases hh : hd < timeout
-        · simp [hh] at h
-          exact Or.inl ⟨out, rfl, h.symm⟩
-        · simp [hh] at h
-          exact Or.inr ⟨h, out, _, rfl⟩
-      | .grandchildHoldsStdout out .forever =>
-        simp at h
-        exact Or.inr ⟨h, out, _, rfl⟩
+    ∃ out, beh.stdout = some out ∧ s = trimNl out := by
+  have hs : st ≠ .otherErr := by
+    intro hst; subst hst
+    cases ev <;> simp [safeCmdExecution, checkPerm, safeCmd] at h
+  rcases (C19_holds_tight ev st beh timeout hs).1 with ⟨e, he⟩ | ⟨out, ho, hr⟩
+  · rw [he] at h; simp at h
+  · rw [hr] at h
+    exact ⟨out, ho, by simpa using h.symm⟩
 
 /-- Trim is idempotent -/
 theorem C19_trim_idem (s : String) : trimNl (trimNl s) = trimNl s := trimNl_idem s
@@ -252,7 +256,7 @@ theorem C19_trim_unique {pre m post : List Char}
 /-! ### non-vacuity -/
 
 example : C19_ok (.exits 0 "42\n") 2000 (safeCmdExecution .resolved c19GoodFile (.exits 0 "42\n") 2000) :=
-  C19_partial _ _ _ _ trivial (by decide)
+  C19_holds _ _ _ _ (by decide)
 
 example : (safeCmdExecution .resolved c19GoodFile (.exits 0 "\n\n abc\n\nx y\t\n\n") 2000).res
     = .ok (.ok " abc\n\nx y\t") := by decide
@@ -264,23 +268,28 @@ example : (safeCmdExecution .resolved c19GoodFile (.outlivesDeadline none) 200)
     = { res := .ok (.error "signal: killed"), attempted := true, ran := true, boundedBy := some 200 } := by
   decide
 
+/-- a holder that lets go quickly is harmless: the text is returned -/
+example : (safeCmdExecution .resolved c19GoodFile (.grandchildHoldsStdout "hi\n" (.ms 100)) 1000)
+    = { res := .ok (.ok "hi"), attempted := true, ran := true, boundedBy := some 100 } := by decide
+
 /-- an expired context starts nothing, not even a command that could not be started -/
 example : (safeCmdExecution .resolved c19GoodFile .startError 0).res = .ok (.error "context deadline exceeded") := by
   decide
 
 example : trimNl "\n\n" = "" ∧ trimNl "" = "" ∧ trimNl "7\n" = "7" ∧ trimNl "a\nb" = "a\nb" := by decide
 
-#print axioms C19_refuted
-#print axioms C19_refuted_by_hang
-#print axioms C19_witness_start_error
-#print axioms C19_witness_grandchild
-#print axioms C19_witness_shell_sleep
-#print axioms C19_witness_late_empty
+#print axioms C19_holds
+#print axioms C19_holds_tight
 #print axioms C19_witness_stat_error
-#print axioms C19_partial
-#print axioms C19_partial_early_release
+#print axioms C19_residual
+#print axioms C19_start_error_is_error
+#print axioms C19_grandchild_is_bounded
+#print axioms C19_shell_sleep_is_bounded
+#print axioms C19_late_release_is_error
+#print axioms C19_holder_past_waitdelay_is_error
 #print axioms C19_panic_reaches_callers
 #print axioms C19_callers_total
+#print axioms C19_callers_never_panic
 #print axioms C19_trim
 #print axioms C19_trim_idem
 #print axioms C19_trim_spec
